@@ -1299,10 +1299,16 @@ fn exec_for(song: &mut Song, t: &Token) -> bool {
         if song.flags.break_flag == 2 { // continue
             song.flags.break_flag = 0;
             exec(song, &inc_tokens); // eval inc
+            // a BREAK / CONTINUE written in the increment belongs to this loop
+            if song.flags.break_flag == 1 { song.flags.break_flag = 0; break; }
+            if song.flags.break_flag == 2 { song.flags.break_flag = 0; }
             continue;
         }
         // eval inc
         exec(song, &inc_tokens); // eval inc
+        // a BREAK / CONTINUE written in the increment belongs to this loop
+        if song.flags.break_flag == 1 { song.flags.break_flag = 0; break; }
+        if song.flags.break_flag == 2 { song.flags.break_flag = 0; }
     }
     true
 }
